@@ -158,6 +158,24 @@ def oracle(ctx, widen=1):
             if regime != "small" and abs(np.linalg.norm(UBc @ got) - 4 * pi / wl * sin(th)) > 1e-8 * (1 + 4 * pi / wl):
                 bad = f"|UB.hkl| = {np.linalg.norm(UBc @ got)} but (4 pi/lambda) sin(theta) = {4 * pi / wl * sin(th)} at {p}"
                 break
+            if rng.random() < 0.4:
+                # the caller owns what the public helpers hand out: scribbling on the six matrices of this position (or on the result)
+                # must not reach any later evaluation
+                from diffcalc.hkl.geometry import get_rotation_matrices
+                from harness.variants import scribble
+                mats6 = get_rotation_matrices(Position(*pa))
+                scribble(list(mats6))
+                kinds.add((seq, "scribbled"))
+                try:
+                    again = np.array(hc.get_hkl(Position(*pa), wl), float)
+                except Exception as e:  # noqa
+                    bad = (f"after the caller overwrote the arrays returned by get_rotation_matrices{tuple(round(x, 4) for x in p)}, get_hkl at the same "
+                           f"position raised {type(e).__name__}: {e}")
+                    break
+                if np.abs(again - ref).max() > 1e-9 * sc:
+                    bad = (f"after the caller overwrote the arrays returned by get_rotation_matrices{tuple(round(x, 4) for x in p)}, get_hkl at the same "
+                           f"position = {again.tolist()}, the forward model gives {ref.tolist()}")
+                    break
             got2 = np.array(hc.get_hkl(Position(*p), 2 * wl), float)
             if np.abs(got2 * 2 - got).max() > 1e-9 * sc:
                 bad = f"hkl does not scale as 1/lambda at {p}"
